@@ -345,7 +345,8 @@ class FileStorage(
             if create and os.path.exists(self.blob_dir):
                 remove_committed_dir(self.blob_dir)
 
-            self._blob_init(blob_dir)
+            # (a read-only open must not create directories or files)
+            self._blob_init(blob_dir, create=not read_only)
             alsoProvides(self, IBlobStorageRestoreable)
         else:
             self.blob_dir = None
